@@ -21,6 +21,15 @@ sequence number and a virtual time):
   events_once         configured events (<sw>_active/_inactive, tag events, events_when_*) handled once per change
   recycle_events      ignore_window_ms switches: documented recycle rule instead of once-per-change
   no_crash            no exception escapes the switch controller / reaches the loop's exception handler
+  cb_args             return_info / callback_kwargs handlers receive exactly the promised arguments
+
+Signatures of the mechanisms found on the unrepaired tree (each has a candidate fix in proposed_fixes/):
+  C03:timed_handler_added_after_deadline_fires                                   C03_late_add_ms_vs_seconds.patch
+  C03:duplicate_timed_handler_survives_remove                                    C03_remove_duplicate_timed_handler.patch
+  C03:crash_KeyError_in_process_active_timed_switches_callback_changed_switch    C03_timed_callback_changes_switch.patch
+  C03:crash_KeyError_in_process_active_timed_switches_stale_wakeup               C03_stale_timed_wakeup.patch
+  C03:timed_handler_fires_though_state_left                                      C03_arm_timed_handlers_before_callbacks.patch
+  C03:remove_by_callback_misses_return_info_handler                              C03_remove_return_info_handler_by_callback.patch
 """
 
 PROPERTY = "C03"
@@ -56,19 +65,26 @@ ASSUMPTIONS = [
     "switches with ignore_window_ms>0 are checked against the recycle rule (one post when a window opens, a "
     "catch-up post at window close if the state differs from the opening state); a change within 1 us of a "
     "window close ends the evaluation of that switch's events",
-    "an exception escaping the switch controller or reaching the loop exception handler (MPF stops) is a violation",
+    "an exception escaping the switch controller or reaching the loop exception handler (MPF stops) is a violation; "
+    "the case ends there (nothing after a crash is judged)",
+    "virtual time is kept monotone: TimeTravelLoop would jump BACK to the `when` of a timer armed in the past; such "
+    "timers are run at the current instant like a real loop does (counted in observed.timers_scheduled_in_the_past)",
+    "a wake-up that re-arms itself for the present instant more than 3000 times is reported as a livelock (on a real "
+    "clock it would fire late by a loop iteration); nothing that happens while the machine is torn down is observed",
+    "each case reports ONE violation (unexplained signatures first, then the rarer mechanism) because the harness "
+    "shrinks a case for its first signature only; all signatures seen are counted in observed['cases_with <sig>']",
 ]
 HORIZONS = {"final_settle_s": 10.0, "max_hold_ms": 2500, "max_scheduled_ahead_s": 3.0}
 TIERS = {
     "quick": {"cases": 3000, "batch": 50, "case_timeout": 60},
-    "thorough": {"cases": 48000, "batch": 250, "case_timeout": 120},
+    "thorough": {"cases": 32000, "batch": 250, "case_timeout": 120},
 }
 MIN_EVALS = {
     # ~40 % of what seed 0 evaluates on a tree without crashes (cases on a crashing tree stop at the crash)
     "quick": {"state_mirror": 100000, "untimed_once": 8000, "duplicate_silent": 7000, "timed_fire": 20000,
               "removed_silent": 15000, "events_once": 30000, "recycle_events": 4000, "no_crash": 20000},
-    "thorough": {"state_mirror": 1600000, "untimed_once": 128000, "duplicate_silent": 112000, "timed_fire": 320000,
-                 "removed_silent": 240000, "events_once": 480000, "recycle_events": 64000, "no_crash": 320000},
+    "thorough": {"state_mirror": 1500000, "untimed_once": 150000, "duplicate_silent": 120000, "timed_fire": 400000,
+                 "removed_silent": 350000, "events_once": 500000, "recycle_events": 70000, "no_crash": 350000},
 }
 SHRINK_KEYS = ["ops"]
 
@@ -77,6 +93,25 @@ MS_SET = [1, 50, 100, 1000, 2500]
 DTS = [0.0, 0.0, 0.001, 0.0005, 0.01, 0.049, 0.05, 0.051, 0.099, 0.1, 0.101, 0.3, 0.5, 1.0, 2.5, 3.0]
 OFFS = [-0.001, -0.0005, 0.0, 0.0, 0.0, 0.0005, 0.001]
 FAR = -100000.0
+
+
+SHRINK_TRIALS_PER_PROCESS = 60
+# mechanisms seen on the unrepaired tree, rarest first (a case reports its rarest one; unlisted signatures win)
+_COMMON_FIRST = [
+    "C03:crash_KeyError_in_process_active_timed_switches_stale_wakeup",
+    "C03:duplicate_timed_handler_survives_remove",
+    "C03:timed_handler_fires_though_state_left",
+    "C03:remove_by_callback_misses_return_info_handler",
+    "C03:crash_KeyError_in_process_active_timed_switches_callback_changed_switch",
+    "C03:timed_handler_added_after_deadline_fires",
+]
+_GENERATED = set()
+_TRIALS = [0]
+
+
+def _ops_digest(case):
+    import json
+    return hash(json.dumps([case.get("switches"), case.get("ops")], sort_keys=True))
 
 
 # =============================================================================================
@@ -243,7 +278,9 @@ def gen_case(rng, tier, index):
             name = rng.choice(names)
             i = int(name[1:].split("_")[0])
             eacts[name] = _gen_basic(rng, sim, depth=1, prefer=i)
-    return {"switches": switches, "ops": ops, "eacts": eacts}
+    case = {"switches": switches, "ops": ops, "eacts": eacts}
+    _GENERATED.add(_ops_digest(case))
+    return case
 
 
 # =============================================================================================
@@ -296,6 +333,7 @@ class _Rt:
         self.inner_budget = 25
         self.eacts = dict(case.get("eacts") or {})
         self.changed_once = [False] * self.n
+        self.done = False
 
     # -- helpers ------------------------------------------------------------------------
     def nq(self):
@@ -381,6 +419,8 @@ class _Rt:
         rt = self
 
         def handler(**kwargs):
+            if rt.done:
+                return
             try:
                 rt.events[name].append((rt.nq(), rt.now()))
                 rt.log("EVENT %s" % name)
@@ -644,6 +684,8 @@ class _Rt:
             self.record_crash(e, "remove/" + where)
 
     def on_fire(self, g, args, kwargs):
+        if self.done:
+            return
         try:
             g.calls += 1
             f = {"q": self.nq(), "t": self.now(), "ctx": self.stack[-1] if self.stack else None,
@@ -687,6 +729,8 @@ class _Rt:
         rt = self
 
         def run_scheduled():
+            if rt.done:
+                return
             try:
                 rt.obs["ops_scheduled"] += 1
                 rt.do_basic(inner, "scheduled")
@@ -733,6 +777,7 @@ class _Rt:
             if self.crash is None and not self.harness_exc:
                 self.advance_to(self.now() + HORIZONS["final_settle_s"])
             self.t_end = self.now()
+            self.done = True        # tearing the machine down runs the loop again: nothing after t_end is an observation
         if self.harness_exc:
             raise RuntimeError("harness error inside a callback:\n" + self.harness_exc)
         return self.finish()
@@ -1078,6 +1123,18 @@ class _Rt:
             if v["sig"] not in seen:
                 seen.add(v["sig"])
                 uniq.append(v)
+                self.obs["cases_with " + v["sig"]] = 1
+        # ONE violation per case: vlib.worker shrinks a case for its FIRST signature only but files the shrunk
+        # case under every signature of the record, so replays of the other signatures would not reproduce.
+        # Order: signatures nobody has explained yet, then the rarer mechanisms, listed known findings last.
+        # (the per-signature case counts of everything seen are in the evidence under observed["cases_with ..."])
+        import os
+        known = set(os.environ.get("VERIF_KNOWN_SIGS", "").split(","))
+        uniq.sort(key=lambda v: (v["sig"] in known, _COMMON_FIRST.index(v["sig"]) if v["sig"] in _COMMON_FIRST else -1))
+        all_sigs = [v["sig"] for v in uniq]
+        uniq = uniq[:1]
+        if uniq:
+            uniq[0]["detail"]["all_signatures_in_this_case"] = all_sigs
         cl = self.cl
         nontrivial = (self.crash is None and cl["state_mirror"] > 0 and cl["untimed_once"] > 0 and
                       cl["duplicate_silent"] > 0 and cl["timed_fire"] > 0 and cl["events_once"] > 0)
@@ -1109,4 +1166,13 @@ def _shape(case):
 
 
 def run_case(case):
+    # Bound the generic shrinker: vlib.worker shrinks EVERY violating case of an unlisted signature for up to 20 s;
+    # on a tree where most cases violate that is hours.  A case that gen_case did not produce in this process is a
+    # shrink candidate; after SHRINK_TRIALS_PER_PROCESS of them further candidates are answered "no violation"
+    # without being run (the shrinker then keeps its best case so far).  Replays and generated cases always run.
+    if _GENERATED and _ops_digest(case) not in _GENERATED:
+        _TRIALS[0] += 1
+        if _TRIALS[0] > SHRINK_TRIALS_PER_PROCESS:
+            return {"violations": [], "clauses": {}, "shape": "", "nontrivial": False,
+                    "obs": {"shrink_candidates_not_run": 1}}
     return _Rt(case).run()
